@@ -387,6 +387,16 @@ DEEP_PINNED = ["DUP11 ADD SWAP11 POP DUP15 POP POP POP SWAP16 SWAP12 DUP10 SWAP1
                "SWAP11 ADD SWAP9 SWAP12 POP POP SWAP16 SWAP15 SWAP16 PUSH1 0x4 POP DUP16 POP DUP16"]
 
 
+def deep_same_operand_corpus():
+    """a word 13 to 16 deep used as both operands of one operation (and nowhere else), kept in place, dropped or replaced afterwards"""
+    out = []
+    for k in (13, 14, 15, 16):
+        for op in ("ADD", "MUL", "SUB", "AND", "LT"):
+            out += ["DUP%d DUP1 %s" % (k, op), "DUP%d DUP1 %s SWAP%d POP" % (k, op, k), "DUP%d DUP1 %s PUSH1 0x0 MSTORE" % (k, op)]
+        out += ["DUP%d DUP1 MSTORE" % k, "DUP%d DUP1 SSTORE" % k, "DUP%d DUP1 DUP1 ADDMOD" % k]
+    return out
+
+
 def deep_stack_blocks(seed, n):
     """blocks that work 10 to 17 words deep and drop words on the way: the greedy algorithm has to clear words out of the way
     (`clean_stack`, found with the line-coverage diagnostic: SWAPi POP of a word that is not on top) before it can reach an operand"""
